@@ -237,3 +237,43 @@ pub fn bh_family(cap: usize, thorough: bool) -> Vec<Vec<u8>> {
     out.sort_by(|a, b| a.len().cmp(&b.len()).then(a.cmp(b)));
     out
 }
+
+// ------------------------------------------------------------ hash object corpus
+
+/// Raw hash contents (log, bh1, bh2) for a type with block hash 2 capacity `cap2`:
+/// log in {0, 30} x (BH(64) x S  U  S x BH(cap2)), plus all 31 logs x S' x S'.
+pub fn hash_corpus(cap2: usize, thorough: bool) -> Vec<(u8, Vec<u8>, Vec<u8>)> {
+    let s = small_set();
+    let s2: Vec<Vec<u8>> = s.iter().filter(|v| v.len() <= cap2).cloned().collect();
+    let f1 = bh_family(64, thorough);
+    let f2 = bh_family(cap2, thorough);
+    let mut out = vec![];
+    for &log in &[0u8, 30] {
+        for (i, a) in f1.iter().enumerate() {
+            // every family member against two small partners (rotating), all partners for a strided subset
+            for (j, b) in s2.iter().enumerate() {
+                if i % 16 == 0 || j == i % s2.len() || j == 0 {
+                    out.push((log, a.clone(), b.clone()));
+                }
+            }
+        }
+        for (i, b) in f2.iter().enumerate() {
+            for (j, a) in s.iter().enumerate() {
+                if i % 16 == 0 || j == i % s.len() || j == 0 {
+                    out.push((log, a.clone(), b.clone()));
+                }
+            }
+        }
+    }
+    for log in 0..31u8 {
+        for a in s.iter().step_by(3) {
+            for b in s2.iter().step_by(2) {
+                out.push((log, a.clone(), b.clone()));
+            }
+        }
+    }
+    out.sort();
+    out.dedup();
+    out.sort_by(|x, y| (x.1.len() + x.2.len()).cmp(&(y.1.len() + y.2.len())).then(x.cmp(y)));
+    out
+}
